@@ -297,10 +297,14 @@ void add_type(Node *node) {
       error_tok(node->cas_addr->tok, "pointer expected");
     if (node->cas_old->ty->kind != TY_PTR)
       error_tok(node->cas_old->tok, "pointer expected");
+    // The new value is stored with the width of the object, so it
+    // must first be converted to the object's type.
+    node->cas_new = new_cast(node->cas_new, node->cas_addr->ty->base);
     return;
   case ND_EXCH:
     if (node->lhs->ty->kind != TY_PTR)
-      error_tok(node->cas_addr->tok, "pointer expected");
+      error_tok(node->lhs->tok, "pointer expected");
+    node->rhs = new_cast(node->rhs, node->lhs->ty->base);
     node->ty = node->lhs->ty->base;
     return;
   }
